@@ -190,6 +190,9 @@ func lookupMethod(i *interpreter, typ types.Type, meth *types.Func) *ssa.Functio
 	case wrapErrorType:
 		return i.eng.wrapErrorMethods[meth.Id()]
 	}
+	if ms, ok := i.eng.fakeMethods[typ]; ok {
+		return ms[meth.Id()]
+	}
 	return i.prog.LookupMethod(typ, meth.Pkg(), meth.Name())
 }
 
@@ -492,7 +495,10 @@ func callSSA(i *interpreter, caller *frame, callpos token.Pos, fn *ssa.Function,
 		i.curFrame = fr
 		r := ext(fr, args)
 		i.curFrame = saved
-		return r
+		if _, no := r.(declined); !no {
+			return r
+		}
+		// the intrinsic declined (symbolic argument): interpret from source
 	}
 	i.checkCallable(fn)
 	if fn.Blocks == nil {
